@@ -4,7 +4,7 @@
   round trip (build + parse + GetGroup, without and with dictionary, any nesting) is stated as `…_full` and checked on
   every run by the monitor clauses `group_roundtrip` / `followers_found` and the correspondence.
 -/
-import Qfx.Lemmas.Codec
+import Qfx.Lemmas.CodecGroup
 open Qfx Qfx.Spec
 
 /-- `Write` starts with `<tag>=<number of entries>` -/
@@ -90,6 +90,25 @@ theorem C13_pop_returns_shorter_stack (d : Dicts) (fields : List TagValue) (hd :
       · have := ih h
         exact ⟨by simp only [List.length_cons]; omega, this.2⟩
 
+/-- READ INVERTS THE WIRE FORM (templates without nested groups, any number of entries, any number of members per entry,
+    members in any order after the delimiter, arbitrary values, anything behind the group that does not carry a template tag).
+    `GetGroup` on `<tag>=<n>` followed by the `n` entries and then `rest` returns exactly `n` entries; entry `i` lists the
+    tags of the i-th wire entry in wire order and maps each of them (tags distinct inside an entry) to a range that starts
+    with that very field — so `GetBytes` on the entry returns the wire value; and the fields behind the group are left
+    untouched ("the fields following the group are still found"). -/
+theorem C13_read_inverts_wire_flat (gtag d : Tag) (ts : List Tag) (rest : List TagValue) (es : List (List (Tag × Bytes)))
+    (hrest : FollowerOK (d :: ts) rest) (hes : ∀ e ∈ es, EntryOK d (d :: ts) e) (hn : es.length < 9223372036854775808) :
+    ∃ gs, readGroup (readFuel (countTV gtag es.length :: (es.flatMap serEntry ++ rest))) (flatTmpl (d :: ts))
+            (countTV gtag es.length :: (es.flatMap serEntry ++ rest)) = .ok (rest, gs) ∧
+      gs.length = es.length ∧
+      ∀ (i : Nat) (e : List (Tag × Bytes)), es[i]? = some e → ∃ g : GEntry, gs[i]? = some g ∧ g.tags = e.map (·.1) ∧
+        ((e.map (·.1)).Nodup → ∀ t v, (t, v) ∈ e → ∃ tail, alFind g.lookup t = some (TagValue.init t v :: tail)) := by
+  have hfuel : readFuel (countTV gtag es.length :: (es.flatMap serEntry ++ rest)) ≥ stepsOf es + 3 := by
+    have := flatMap_serEntry_length es
+    simp [readFuel, this]; omega
+  exact ⟨readSpec rest es, readGroup_flat gtag d ts rest hrest es hes hn _ hfuel, readSpec_length rest es,
+    readSpec_entry d ts rest es hes⟩
+
 /-! ## not (yet) theorems -/
 
 /-- round trip without dictionary, any nesting depth: what `getgrp` must observe after build + parse -/
@@ -116,6 +135,7 @@ example :
 
 /- Clause checklist (properties.jsonl C13):
    "same number of entries"                                  C13_read_count, C13_write_starts_with_count, C13_read_zero
-   "same fields and values in the same order, nested groups" C13_read_member, C13_read_delimiter (one step each); whole: C13_roundtrip_nodict_full
+   "same fields and values in the same order, nested groups" C13_read_inverts_wire_flat (whole Read, templates without nesting);
+                                                             C13_read_member, C13_read_delimiter (one step each, any template); nested: C13_roundtrip_nodict_full
    "fields following the group are still found"              C13_read_stops_at_follower; with dictionary C13_pop_returns_shorter_stack; whole: …_dict_full
    monitor clauses: group_roundtrip{dict=api|n|a|ta,nested=y|n}, followers_found{dict=…} -/
